@@ -479,7 +479,8 @@ func checkShapeWorlds(c *Ctx, rule string) {
 							}
 							pos = c.P.Pos(u.Lines[fd.Line-1].Pos)
 						}
-						k := fmt.Sprintf("%s %s on %s: %s in code emitted by %s", pkgShort(pkg), ws.Name, class, classifyTypeError(fd.Msg), em)
+						k := fmt.Sprintf("%s %s on %s: %s", pkgShort(pkg), ws.Name, class, classifyTypeError(fd.Msg))
+						_ = em
 						if bad[k] == nil {
 							bad[k] = &agg{kinds: map[string]bool{}, msg: holeFree(fd.Msg), text: holeFree(fd.Text), pos: pos}
 						}
